@@ -2231,7 +2231,7 @@ func TestVerifC09(t *testing.T) {
 	rep := kit.NewReport("C09")
 	cfg := rep.Cfg()
 	defer rep.Flush()
-	rep.Set("rule", "case i = PRNG(seed,'C09',i) (the enumerated block does not depend on the seed except for contents and chunk boundaries). Pull cases: a history of 1-4 attempts of the real Registry.Pull (ChunkingThreshold 1-64 KiB, MaxStreams 1-8, real DiskCache) against a fake registry with a chunk plan per chunked layer, a fault plan per request and a completion-order plan for the held chunk responses; after every attempt every layer file is re-hashed and the name is resolved; the manifest file is watched with inotify and looked at every time chunk responses are held. Push cases: the real Registry.Push against a fake registry that records acceptance per blob and checks it when the manifest PUT arrives. Non-trivial = (pull) some chunked layer was served in >= 2 chunk responses in one attempt and the history contains a fired fault / cancellation / broken chunk list / delete / version update; (push) >= 2 blobs uploaded and committed, or >= 1 with a fired fault. Distinct = distinct (mode, shape, threshold, MaxStreams, fired fault kinds, broken-list kinds, outcome sequence) resp. distinct enumerated tuples (k, completion order, failing chunk, fault kind | cancel step, MaxStreams).")
+	rep.Set("rule", "case i = PRNG(seed,'C09',i) (the enumerated block does not depend on the seed except for contents and chunk boundaries). Pull cases: a history of 1-4 attempts of the real Registry.Pull (ChunkingThreshold 1-64 KiB, MaxStreams 1-8, real DiskCache) against a fake registry with a chunk plan per chunked layer, a fault plan per request and a completion-order plan for the held chunk responses; in a third of the two-version cases the replaced layer's successor is a revision of it (same size and chunk list, same bytes up to a chunk boundary, so that two layers share chunks of equal content and range); after every attempt every layer file is re-hashed and the name is resolved; the manifest file is watched with inotify and looked at every time chunk responses are held. Push cases: the real Registry.Push against a fake registry that records acceptance per blob and checks it when the manifest PUT arrives. Non-trivial = (pull) some chunked layer was served in >= 2 chunk responses in one attempt and the history contains a fired fault / cancellation / broken chunk list / delete / version update; (push) >= 2 blobs uploaded and committed, or >= 1 with a fired fault. Distinct = distinct (mode, shape, threshold, MaxStreams, fired fault kinds, broken-list kinds, outcome sequence) resp. distinct enumerated tuples (k, completion order, failing chunk, fault kind | cancel step, MaxStreams).")
 	rep.Set("assumptions", []string{
 		"the retry loop of registry.Local.handlePull is mirrored in the harness (real backoff.Loop, verbatim copy of canRetry, same context for every Pull of the loop); the real HTTP handler is not driven from this package (import cycle)",
 		"manifests are well-formed and honest about layer sizes; layer sizes >= 1; one ChunkingThreshold per case",
